@@ -12,6 +12,7 @@ fn main() {
         std::process::exit(2);
     }
     explore::ops::install_quiet_panic_hook();
+    subjects::install_logger();
     let reg = subjects::Reg::new();
     if args[1] == "solo" {
         std::process::exit(explore::checks::solo_main(&reg, &args[2..]));
